@@ -17,5 +17,6 @@ open Martian.Props.C17
 #print axioms returned_are_completed
 #print axioms completed_returned_by_next_export_and_reset
 #print axioms pending_kept_by_export_and_reset
+#print axioms each_response_attached_to_own_request
 #print axioms log_well_formed
 #print axioms response_after_reset_ignored
